@@ -12,7 +12,9 @@ BIN = "/root/.rustup/toolchains/nightly-x86_64-unknown-linux-gnu/lib/rustlib/x86
 os.makedirs(SCR + "/prof", exist_ok=True)
 for f in glob.glob(SCR + "/prof/*.profraw"):
     os.remove(f)
-env = dict(os.environ, CARGO_TARGET_DIR=SCR + "/target", CARGO_NET_OFFLINE="true",
+# (LLVM_PROFILE_FILE also during the build: an instrumented proc-macro otherwise drops its
+# profile into the crate directory it is compiled in, i.e. into /repo)
+env = dict(os.environ, CARGO_TARGET_DIR=SCR + "/target", CARGO_NET_OFFLINE="true", LLVM_PROFILE_FILE=SCR + "/prof/build-%p-%m.profraw",
            RUSTFLAGS="-C instrument-coverage --cfg ten0_serde_avro_fast_verif")
 subprocess.run(["cargo", "+nightly", "build", "--offline", "--quiet"], cwd=ROOT + "/harness", env=env, check=True)
 H = SCR + "/target/debug/harness"
